@@ -1206,6 +1206,7 @@ class Compiler:
             "+": OpCode.ADD,
             "-": OpCode.SUB,
             "*": OpCode.MUL,
+            "**": OpCode.POW,
             "/": OpCode.DIV,
             "%": OpCode.MOD,
             "&": OpCode.BAND,
